@@ -129,7 +129,7 @@ def rule_tokenizer(ctx, rep):
 
 # ---------------------------------------------------------------------------------------------------------
 WORDS = ['one', 'twenty', 'first', 'the', 'and', 'One']
-SEPS = [' ', ', ', '-', '\u200b', '\u00a0\t', '\ufeff ']
+SEPS = [' ', ', ', '-', '\u200b', '\u00a0\t', '\ufeff ', '\r\n', '\n']     # line ends included: a line-wise rewrite must keep CR LF
 
 
 def _text_work(job):
